@@ -16,13 +16,15 @@ pub mod c09;
 pub mod c10;
 pub mod c11;
 pub mod c12;
+pub mod c13;
+pub mod c14;
 pub mod c15;
 pub mod c16;
 pub mod c17;
 pub mod c18;
 
 pub fn all() -> Vec<&'static Prop> {
-    vec![&c01::PROP, &c02::PROP, &c03::PROP, &c04::PROP, &c05::PROP, &c06::PROP, &c07::PROP, &c08::PROP, &c09::PROP, &c10::PROP, &c11::PROP, &c12::PROP, &c15::PROP, &c16::PROP, &c17::PROP, &c18::PROP]
+    vec![&c01::PROP, &c02::PROP, &c03::PROP, &c04::PROP, &c05::PROP, &c06::PROP, &c07::PROP, &c08::PROP, &c09::PROP, &c10::PROP, &c11::PROP, &c12::PROP, &c13::PROP, &c14::PROP, &c15::PROP, &c16::PROP, &c17::PROP, &c18::PROP]
 }
 
 pub fn worker_main(kind: &str, _args: &[String]) -> i32 {
@@ -30,6 +32,8 @@ pub fn worker_main(kind: &str, _args: &[String]) -> i32 {
         "c01" => c01::worker(),
         "c08" => c08::worker(),
         "c10" => c10::worker(),
+        "c13" => c13::worker(),
+        "c14" => c14::worker(),
         "c16" => c16::worker(),
         "c18" => c18::worker(),
         _ => {
